@@ -326,6 +326,11 @@ Proof.
   eapply sj_trans; [exact H1|]. eapply sj_trans; [apply sj_do_close|]. reflexivity.
 Qed.
 
+Lemma good_do_join_shutdown s : Good s (fst (do_join_shutdown s)).
+Proof.
+  unfold do_join_shutdown. destruct (wlist s); cbn [fst]; [apply good_mark_all_lost|apply good_join_exited].
+Qed.
+
 Lemma get_job_same s s' j : same_jobs s s' -> get_job s' j = get_job s j.
 Proof. unfold same_jobs, get_job. intros H. rewrite H. reflexivity. Qed.
 
@@ -488,6 +493,7 @@ Proof.
   - cbn [fst]. apply Good_same. apply sj_do_close.
   - apply good_do_next.
   - apply good_do_tick_close.
+  - apply good_do_join_shutdown.
 Qed.
 
 Lemma AllJ_init c : AllJ (init c).
